@@ -2,14 +2,18 @@ package main
 
 import (
 	"context"
+	crand "crypto/rand"
+	"errors"
 	"fmt"
 	"io"
 	"math/rand"
 	"net"
+	"runtime"
 	"sort"
 	"strconv"
 	"strings"
 	"sync"
+	"sync/atomic"
 	"time"
 
 	libio "github.com/fatedier/golib/io"
@@ -37,8 +41,22 @@ import (
 //	close <name> | nclose <name>                    => -                              (CloseListener / CloseClient)
 //	lclose <name>                                   => -                              (InternalListener.Close only)
 //	conn <name> <ts> <sign> <user> <connid> <ec>    => queued | dropped | err:<kind>  (Manager.NewConn; ec = enc,comp flags)
-//	accept <name>                                   => c<connid>[:bytes-bad] | none   (one Accept on the listener registered under name)
+//	accept <name>                                   => c<connid>@<lid>[:bytes-bad] | none   (one Accept on the listener registered under
+//	                                                   name; then a marker is sent visitor→owner and owner→visitor through the wrappers)
+//	echo <connid>                                   => ok | bad | none                (another round trip on an accepted stream that is still open)
 //	drain                                           => <lid>=<ids>|… | -              (everything still waiting in ANY listener ever made)
+//
+// Interleavings of NewConn with Listen / CloseListener.  NewConn can be held up from outside at exactly
+// one point: libio.WithEncryption → crypto.NewWriter reads the IV from crypto/rand.Reader.  The harness
+// puts a gate in front of that reader which stops only calls that come from a `vbegin` goroutine:
+//
+//	vbegin <name> <ts> <sign> <user> <connid> <ec>  => paused | queued | dropped | err:<kind> | wouldblock
+//	vend <connid> ok|fail                           => <queued|dropped|err:<kind>> w=[<results of the writers that had to wait>]
+//
+// While a NewConn is paused, listen / close are issued by one owner goroutine and answer `blocked` when
+// they do not return (they wait for the manager's lock); their results appear in the w=[…] of the vend
+// after which they ran.  conn / vbegin behind a waiting writer are not executed (`wouldblock`).
+//
 //	natv <name> <ts> <sign> <user> pc=<b> ua=<b>    => preok | sid:<lid> | err:<kind>, then " left=<sessions stored afterwards>"
 //
 // Layer B — one real server.Service on loopback; scripted raw peers log in, register proxies, ask:
@@ -68,12 +86,74 @@ type visListener struct {
 	l    *netpkg.InternalListener
 	name string
 	sk   string
+	// an Accept that did not return within the wait stays behind; what it gets later belongs to the next accept / drain
+	waiting bool
+	got     chan net.Conn
 }
 
 type visPending struct {
 	peer net.Conn // the visitor's end of the pipe
 	e, c bool
 	sk   string
+	w    io.ReadWriteCloser // the visitor's wrappers, made once (the IV travels once per direction)
+	n    int                // round trips made
+}
+
+// a NewConn call started by vbegin
+type visFlight struct {
+	id      int
+	a, b    net.Conn
+	hit     atomic.Bool
+	paused  chan struct{}
+	release chan bool
+	done    chan error
+}
+
+// a Listen / CloseListener call handed to the owner goroutine
+type visWrite struct {
+	kind, name, sk string
+	allow          []string
+	l              *netpkg.InternalListener
+	err            error
+	done           chan struct{}
+}
+
+const visBlockWait = 15 * time.Millisecond // how long a writer is given before it is reported as blocked
+const visAcceptWait = 40 * time.Millisecond
+
+var visArmed atomic.Pointer[visFlight]
+var visGateOnce sync.Once
+
+type visGateReader struct{ orig io.Reader }
+
+func (g visGateReader) Read(p []byte) (int, error) {
+	if f := visArmed.Load(); f != nil && visOnFlightStack() && f.hit.CompareAndSwap(false, true) {
+		f.paused <- struct{}{}
+		if ok := <-f.release; !ok {
+			return 0, errors.New("verif: iv source failed")
+		}
+	}
+	return g.orig.Read(p)
+}
+
+func visOnFlightStack() bool {
+	pc := make([]uintptr, 48)
+	n := runtime.Callers(2, pc)
+	frames := runtime.CallersFrames(pc[:n])
+	for {
+		fr, more := frames.Next()
+		if strings.HasSuffix(fr.Function, "main.visFlightCall") {
+			return true
+		}
+		if !more {
+			return false
+		}
+	}
+}
+
+//go:noinline
+func visFlightCall(vm *visitor.Manager, name string, c net.Conn, ts int64, sign string, e, z bool, user string) error {
+	return vm.NewConn(name, c, ts, sign, e, z, user)
 }
 
 type visState struct {
@@ -86,28 +166,143 @@ type visState struct {
 	events chan [2]string // (lid, sid) received on any sidCh ever made
 	// granted NAT-hole visits whose handler is still waiting out NatHoleTimeout: sid -> handler done
 	pendingNat map[string]chan struct{}
+	open       map[int]net.Conn   // accepted streams (the owner's end)
+	flights    map[int]*visFlight // paused NewConn calls
+	pendingW   []*visWrite        // writers handed to the owner goroutine, not yet settled (in order)
+	wres       []string           // results of writers that had been reported blocked
+	ownerCh    chan *visWrite
+	retiredAt  time.Time
 }
 
 var vst *visState
 
-func visResetA() {
+// controllers of earlier episodes with granted visits in flight: their handlers end NatHoleTimeout after
+// the grant and must then have removed their session
+var visRetired []*visState
+
+func visResetA() string {
+	visGateOnce.Do(func() { crand.Reader = visGateReader{orig: crand.Reader} })
 	// one second (the unit of NatHoleTimeout): since the notify send is bounded by this timeout a value
 	// of 0 would make the send race with an already expired timer
 	nathole.NatHoleTimeout = 1
+	res := "-"
 	if vst != nil {
+		for _, f := range vst.flights {
+			f.release <- true
+			select {
+			case <-f.done:
+			case <-time.After(time.Second):
+			}
+		}
+		for _, w := range vst.pendingW {
+			select {
+			case <-w.done:
+			case <-time.After(time.Second):
+			}
+		}
+		close(vst.ownerCh)
 		for _, p := range vst.conns {
 			p.peer.Close()
 		}
-		for _, d := range vst.pendingNat {
-			select {
-			case <-d:
-			case <-time.After(3 * time.Second):
-			}
+		if len(vst.pendingNat) > 0 {
+			vst.retiredAt = time.Now()
+			visRetired = append(visRetired, vst)
 		}
 	}
+	// "leaves no session state behind": a granted visit's handler is over 1 s after the grant; controllers
+	// retired longer ago than that (with slack) must not hold a session any more
+	keep := visRetired[:0]
+	for _, old := range visRetired {
+		if time.Since(old.retiredAt) < 1500*time.Millisecond {
+			keep = append(keep, old)
+			continue
+		}
+		if n := len(old.nc.VerifSessions()); n > 0 {
+			res = "leftover:" + strconv.Itoa(n)
+		}
+	}
+	visRetired = keep
 	c, _ := nathole.NewController(time.Hour)
 	vst = &visState{vm: visitor.NewManager(), nc: c, byName: map[string]*visListener{}, conns: map[int]*visPending{},
-		events: make(chan [2]string, 64), pendingNat: map[string]chan struct{}{}}
+		events: make(chan [2]string, 64), pendingNat: map[string]chan struct{}{}, open: map[int]net.Conn{},
+		flights: map[int]*visFlight{}, ownerCh: make(chan *visWrite, 4096)}
+	go func(ch chan *visWrite, vm *visitor.Manager) { // the owner: issues Listen / CloseListener one after the other
+		for w := range ch {
+			if w.kind == "listen" {
+				w.l, w.err = vm.Listen(w.name, w.sk, w.allow)
+			} else {
+				vm.CloseListener(w.name)
+			}
+			close(w.done)
+		}
+	}(vst.ownerCh, vst.vm)
+	return res
+}
+
+// bookkeeping of a writer that has returned (main goroutine only)
+func (st *visState) settle(w *visWrite) string {
+	if w.kind == "close" {
+		delete(st.byName, w.name)
+		return "-"
+	}
+	if w.err != nil {
+		return "repeated"
+	}
+	vl := &visListener{lid: st.nextID, l: w.l, name: w.name, sk: w.sk, got: make(chan net.Conn, 1)}
+	st.nextID++
+	st.byName[w.name] = vl
+	st.all = append(st.all, vl)
+	return "ok:" + strconv.Itoa(vl.lid)
+}
+
+// settle every writer that has returned, oldest first (the owner runs them in order)
+func (st *visState) collect() {
+	for len(st.pendingW) > 0 {
+		select {
+		case <-st.pendingW[0].done:
+			st.wres = append(st.wres, st.settle(st.pendingW[0]))
+			st.pendingW = st.pendingW[1:]
+		default:
+			return
+		}
+	}
+}
+
+func (st *visState) write(w *visWrite) string {
+	w.done = make(chan struct{})
+	st.pendingW = append(st.pendingW, w)
+	wait := 3 * time.Second // nothing can be in its way: it must return
+	if len(st.flights) > 0 || len(st.pendingW) > 1 {
+		wait = visBlockWait
+	}
+	st.ownerCh <- w
+	select {
+	case <-w.done:
+		st.collect()
+		r := st.wres[len(st.wres)-1]
+		st.wres = st.wres[:len(st.wres)-1]
+		return r
+	case <-time.After(wait):
+		return "blocked"
+	}
+}
+
+// the answer of a NewConn call that has returned
+func (st *visState) connOutcome(id int, a, b net.Conn, err error) string {
+	if err != nil {
+		a.Close()
+		b.Close()
+		delete(st.conns, id)
+		return "err:" + visErrClass(err.Error())
+	}
+	// nil error: either in the accept channel or closed by PutConn because the channel is full
+	_ = b.SetReadDeadline(time.Now().Add(200 * time.Microsecond))
+	if _, rerr := b.Read(make([]byte, 1)); rerr == io.EOF || rerr == io.ErrClosedPipe {
+		delete(st.conns, id)
+		return "dropped"
+	}
+	_ = b.SetReadDeadline(time.Time{})
+	return "queued"
 }
 
 func visErrClass(e string) string {
@@ -124,6 +319,8 @@ func visErrClass(e string) string {
 		return "notallowed"
 	case strings.Contains(e, "listener is closed"):
 		return "closed"
+	case strings.Contains(e, "create encryption connection failed"):
+		return "encfail"
 	}
 	return "other:" + hx(e)
 }
@@ -143,45 +340,69 @@ func visWrap(c io.ReadWriteCloser, e, z bool, key string) io.ReadWriteCloser {
 	return c
 }
 
-func visAcceptOne(l *netpkg.InternalListener) (net.Conn, bool) {
-	ch := make(chan net.Conn, 1)
-	go func() {
-		c, err := l.Accept()
-		if err != nil {
-			ch <- nil
-			return
-		}
-		ch <- c
-	}()
+func visAcceptOne(vl *visListener, wait time.Duration) (net.Conn, bool) {
+	if !vl.waiting {
+		vl.waiting = true
+		go func() {
+			c, err := vl.l.Accept()
+			if err != nil {
+				vl.got <- nil
+				return
+			}
+			vl.got <- c
+		}()
+	}
 	select {
-	case c := <-ch:
+	case c := <-vl.got:
+		vl.waiting = false
 		return c, c != nil
-	case <-time.After(2 * time.Second):
+	case <-time.After(wait):
 		return nil, false
 	}
 }
 
-func visBytesOK(st *visState, id int, got net.Conn) bool {
+// one marker visitor→owner and one owner→visitor through the wrappers each end declared.
+// Bounded from outside: a wrapper that has lost its stream may block on a connection no deadline reaches.
+// In-process pipes answer in microseconds; after a first failure the rest of the run waits only briefly.
+var visTripWait = 400 * time.Millisecond
+
+func visRoundTrip(st *visState, id int, got net.Conn) bool {
 	p := st.conns[id]
 	if p == nil {
 		return false
 	}
-	want := []byte("hello-" + strconv.Itoa(id))
-	w := visWrap(p.peer, p.e, p.c, p.sk)
-	go func() { _, _ = w.Write(want) }()
-	buf := make([]byte, len(want))
-	_ = p.peer.SetDeadline(time.Now().Add(2 * time.Second))
-	done := make(chan bool, 1)
-	go func() {
-		_, err := io.ReadFull(got, buf)
-		done <- err == nil && string(buf) == string(want)
-	}()
-	select {
-	case ok := <-done:
-		return ok
-	case <-time.After(2 * time.Second):
-		return false
+	if p.w == nil {
+		p.w = visWrap(p.peer, p.e, p.c, p.sk)
 	}
+	p.n++
+	tag := strconv.Itoa(id) + "-" + strconv.Itoa(p.n)
+	ping, pong := []byte("hello-"+tag), []byte("reply-"+tag)
+	w := p.w
+	res := make(chan bool, 1)
+	go func() {
+		go func() { _, _ = w.Write(ping) }()
+		buf := make([]byte, len(ping))
+		if _, err := io.ReadFull(got, buf); err != nil || string(buf) != string(ping) {
+			res <- false
+			return
+		}
+		go func() { _, _ = got.Write(pong) }()
+		buf2 := make([]byte, len(pong))
+		if _, err := io.ReadFull(w, buf2); err != nil || string(buf2) != string(pong) {
+			res <- false
+			return
+		}
+		res <- true
+	}()
+	ok := false
+	select {
+	case ok = <-res:
+	case <-time.After(visTripWait):
+	}
+	if !ok {
+		visTripWait = 30 * time.Millisecond
+	}
+	return ok
 }
 
 func visExec(tok []string) string {
@@ -191,23 +412,14 @@ func visExec(tok []string) string {
 	st := vst
 	switch tok[0] {
 	case "reset":
-		visResetA()
+		r := visResetA()
 		visResetB()
-		return "-"
+		return r
 	case "key":
 		ts, _ := strconv.ParseInt(tok[2], 10, 64)
 		return hx(util.GetAuthKey(unhx(tok[1]), ts))
 	case "listen":
-		name := unhx(tok[1])
-		l, err := st.vm.Listen(name, unhx(tok[2]), unlist(tok[3]))
-		if err != nil {
-			return "repeated"
-		}
-		vl := &visListener{lid: st.nextID, l: l, name: name, sk: unhx(tok[2])}
-		st.nextID++
-		st.byName[name] = vl
-		st.all = append(st.all, vl)
-		return "ok:" + strconv.Itoa(vl.lid)
+		return st.write(&visWrite{kind: "listen", name: unhx(tok[1]), sk: unhx(tok[2]), allow: unlist(tok[3])})
 	case "nlisten":
 		name := unhx(tok[1])
 		ch, err := st.nc.ListenClient(name, unhx(tok[2]), unlist(tok[3]))
@@ -223,9 +435,7 @@ func visExec(tok []string) string {
 		}()
 		return "ok:" + strconv.Itoa(lid)
 	case "close":
-		st.vm.CloseListener(unhx(tok[1]))
-		delete(st.byName, unhx(tok[1]))
-		return "-"
+		return st.write(&visWrite{kind: "close", name: unhx(tok[1])})
 	case "nclose":
 		st.nc.CloseClient(unhx(tok[1]))
 		return "-"
@@ -234,7 +444,10 @@ func visExec(tok []string) string {
 			vl.l.Close()
 		}
 		return "-"
-	case "conn":
+	case "conn", "vbegin":
+		if len(st.pendingW) > 0 {
+			return "wouldblock" // RLock would queue behind the waiting writer
+		}
 		ts, _ := strconv.ParseInt(tok[2], 10, 64)
 		id := atoi(tok[5])
 		a, b := net.Pipe()
@@ -244,27 +457,58 @@ func visExec(tok []string) string {
 			sk = vl.sk
 		}
 		st.conns[id] = &visPending{peer: b, e: e, c: z, sk: sk}
-		err := st.vm.NewConn(unhx(tok[1]), &visConn{Conn: a, id: id}, ts, unhx(tok[3]), e, z, unhx(tok[4]))
-		if err != nil {
-			a.Close()
-			b.Close()
-			delete(st.conns, id)
-			return "err:" + visErrClass(err.Error())
+		if tok[0] == "conn" {
+			err := st.vm.NewConn(unhx(tok[1]), &visConn{Conn: a, id: id}, ts, unhx(tok[3]), e, z, unhx(tok[4]))
+			return st.connOutcome(id, a, b, err)
 		}
-		// nil error: either in the accept channel or closed by PutConn because the channel is full
-		_ = b.SetReadDeadline(time.Now().Add(200 * time.Microsecond))
-		if _, rerr := b.Read(make([]byte, 1)); rerr == io.EOF || rerr == io.ErrClosedPipe {
-			delete(st.conns, id)
-			return "dropped"
+		f := &visFlight{id: id, a: a, b: b, paused: make(chan struct{}, 1), release: make(chan bool, 1), done: make(chan error, 1)}
+		visArmed.Store(f)
+		go func() {
+			f.done <- visFlightCall(st.vm, unhx(tok[1]), &visConn{Conn: a, id: id}, ts, unhx(tok[3]), e, z, unhx(tok[4]))
+		}()
+		defer visArmed.Store(nil)
+		select {
+		case <-f.paused:
+			st.flights[id] = f
+			return "paused"
+		case err := <-f.done:
+			return st.connOutcome(id, a, b, err)
+		case <-time.After(3 * time.Second):
+			return "hang"
 		}
-		_ = b.SetReadDeadline(time.Time{})
-		return "queued"
+	case "vend":
+		id := atoi(tok[1])
+		f := st.flights[id]
+		if f == nil {
+			return "noflight"
+		}
+		f.release <- tok[2] == "ok"
+		var err error
+		select {
+		case err = <-f.done:
+		case <-time.After(3 * time.Second):
+			return "hang"
+		}
+		delete(st.flights, id)
+		res := st.connOutcome(id, f.a, f.b, err)
+		if len(st.flights) == 0 { // the last reader has left: the waiting writers run now
+			for _, w := range st.pendingW {
+				select {
+				case <-w.done:
+				case <-time.After(3 * time.Second):
+				}
+			}
+		}
+		st.collect()
+		res += " w=[" + strings.Join(st.wres, ",") + "]"
+		st.wres = nil
+		return res
 	case "accept":
 		vl := st.byName[unhx(tok[1])]
 		if vl == nil {
 			return "none"
 		}
-		c, ok := visAcceptOne(vl.l)
+		c, ok := visAcceptOne(vl, visAcceptWait)
 		if !ok {
 			return "none"
 		}
@@ -272,16 +516,37 @@ func visExec(tok []string) string {
 		if a, isV := c.RemoteAddr().(visAddr); isV {
 			id = a.id
 		}
-		r := "c" + strconv.Itoa(id)
-		if !visBytesOK(st, id, c) {
+		r := "c" + strconv.Itoa(id) + "@" + strconv.Itoa(vl.lid)
+		st.open[id] = c
+		if !visRoundTrip(st, id, c) {
 			r += ":bytes-bad"
 		}
 		return r
+	case "echo":
+		id := atoi(tok[1])
+		c := st.open[id]
+		if c == nil {
+			return "none"
+		}
+		if !visRoundTrip(st, id, c) {
+			return "bad"
+		}
+		return "ok"
 	case "drain":
 		parts := []string{}
 		for _, vl := range st.all {
 			vl.l.Close()
 			ids := []string{}
+			if vl.waiting { // an Accept left behind by a timed-out accept op: it returns now, with the oldest connection if any
+				vl.waiting = false
+				if c := <-vl.got; c != nil {
+					if a, isV := c.RemoteAddr().(visAddr); isV {
+						ids = append(ids, strconv.Itoa(a.id))
+					} else {
+						ids = append(ids, "?")
+					}
+				}
+			}
 			for {
 				c, err := vl.l.Accept()
 				if err != nil {
@@ -785,8 +1050,15 @@ func visGen(rng *rand.Rand, n int, emit func(string)) {
 			// ------------------------------------------------ layer A episode
 			lst := map[string]*visGenPx{}
 			nat := map[string]*visGenPx{}
-			qlen := map[string]int{}
+			qids := map[string][]int{} // what waits in the accept channel of the listener registered under the name
 			closed := map[string]bool{}
+			opened := []int{}       // accepted streams
+			type genFlight struct { // a NewConn paused in WithEncryption
+				id   int
+				name string
+			}
+			flights := []genFlight{}
+			pend := []func(){} // effects of the writers that wait for the lock
 			steps := 30 + rng.Intn(50)
 			liveName := func(m map[string]*visGenPx, dflt string) string {
 				ks := make([]string, 0, len(m))
@@ -799,73 +1071,197 @@ func visGen(rng *rand.Rand, n int, emit func(string)) {
 				}
 				return pick(rng, ks)
 			}
+			write := func(eff func()) {
+				if len(flights) > 0 || len(pend) > 0 {
+					pend = append(pend, eff)
+				} else {
+					eff()
+				}
+			}
+			listen := func(name, sk string, al []string) {
+				out(fmt.Sprintf("listen %s %s %s", hx(name), hx(sk), visList(al)))
+				write(func() {
+					if lst[name] == nil {
+						lst[name] = &visGenPx{sk: sk, allow: al}
+						qids[name] = nil
+						closed[name] = false
+					}
+				})
+			}
+			closeL := func(name string) {
+				out("close " + hx(name))
+				write(func() { delete(lst, name) })
+			}
+			accept := func(name string, evenIfEmpty bool) {
+				if lst[name] != nil && len(qids[name]) > 0 {
+					out("accept " + hx(name))
+					opened = append(opened, qids[name][0])
+					qids[name] = qids[name][1:]
+				} else if evenIfEmpty {
+					out("accept " + hx(name)) // nothing can be waiting there
+				}
+			}
+			// one NewConn: op = "conn" (runs to its end) or "vbegin" (may be held up in WithEncryption)
+			visit := func(op, name string, likelyGood bool) {
+				if len(pend) > 0 {
+					return // RLock would queue behind the waiting writer
+				}
+				ts := pick(rng, tss)
+				user := pick(rng, users)
+				sk := pick(rng, sks)
+				if p := lst[name]; p != nil {
+					sk = p.sk
+					if (likelyGood || rng.Intn(3) > 0) && len(p.allow) > 0 {
+						user = pick(rng, p.allow)
+					}
+				}
+				good := rng.Intn(4) > 0
+				if likelyGood {
+					good = rng.Intn(8) > 0
+				}
+				sg := sign(sk, ts, good)
+				nm := name
+				if rng.Intn(25) == 0 && !likelyGood {
+					nm = string([]byte{0xff, 'p', byte(rng.Intn(256))})
+					user = string([]byte{byte(rng.Intn(256)), 0x80})
+					sg = string([]byte{byte(rng.Intn(256)), byte(rng.Intn(256))})
+				}
+				connID++
+				e := pick(rng, ec)
+				if op == "vbegin" && rng.Intn(4) > 0 {
+					e = "1" + e[1:]
+				}
+				out(fmt.Sprintf("%s %s %d %s %s %d %s", op, hx(nm), ts, hx(sg), hx(user), connID, e))
+				if p := lst[nm]; p != nil && sg == util.GetAuthKey(p.sk, ts) && visAllowed(p.allow, user) {
+					if op == "vbegin" && e[0] == '1' {
+						flights = append(flights, genFlight{connID, nm})
+					} else if !closed[nm] {
+						qids[nm] = append(qids[nm], connID)
+					}
+				}
+			}
+			vend := func(k int) {
+				f := flights[k]
+				flights = append(flights[:k:k], flights[k+1:]...)
+				ok := rng.Intn(8) > 0
+				out(fmt.Sprintf("vend %d %s", f.id, lo.Ternary(ok, "ok", "fail")))
+				if ok && lst[f.name] != nil && !closed[f.name] {
+					qids[f.name] = append(qids[f.name], f.id)
+				}
+				if len(flights) == 0 {
+					for _, eff := range pend {
+						eff()
+					}
+					pend = nil
+				}
+			}
+			otherCfg := func(name string) (string, []string) { // a key and a list that differ from the registered ones
+				sk, al := pick(rng, sks), pick(rng, allows)
+				if p := lst[name]; p != nil {
+					for k := 0; k < 4 && sk == p.sk; k++ {
+						sk = pick(rng, sks)
+					}
+				}
+				return sk, al
+			}
+			// what may happen while NewConn calls stand in WithEncryption
+			meanwhile := func(name string) {
+				switch rng.Intn(9) {
+				case 0, 1:
+					closeL(name)
+				case 2, 3:
+					sk, al := otherCfg(name)
+					listen(name, sk, al)
+				case 4:
+					out("lclose " + hx(name))
+					if lst[name] != nil {
+						closed[name] = true
+					}
+				case 5:
+					accept(name, false)
+				case 6:
+					visit("conn", name, true)
+				case 7:
+					closeL(pick(rng, names))
+				default:
+					out(fmt.Sprintf("key %s %d", hx(pick(rng, sks)), pick(rng, tss)))
+				}
+			}
+			flightScenario := func(name string) {
+				if lst[name] == nil && rng.Intn(5) > 0 && len(flights) == 0 {
+					listen(name, pick(rng, sks), pick(rng, allows))
+				}
+				for k := 1 + rng.Intn(2); k > 0; k-- {
+					nm := name
+					if rng.Intn(4) == 0 {
+						nm = liveName(lst, name)
+					}
+					visit("vbegin", nm, true)
+				}
+				if rng.Intn(3) == 0 {
+					// the proxy is closed and the name registered again, with another key / list
+					closeL(name)
+					sk, al := otherCfg(name)
+					listen(name, sk, al)
+				} else {
+					for k := rng.Intn(5); k > 0; k-- {
+						meanwhile(name)
+					}
+				}
+				for len(flights) > 0 {
+					vend(rng.Intn(len(flights)))
+					if len(flights) > 0 && rng.Intn(2) == 0 {
+						meanwhile(name)
+					}
+				}
+				for k := rng.Intn(3); k > 0; k-- {
+					accept(name, rng.Intn(3) == 0)
+				}
+			}
 			for i := 0; i < steps && count < n; i++ {
 				name := pick(rng, names)
 				r := rng.Intn(100)
 				if i < 4 {
-					r = 4 + rng.Intn(22) // start with a few registrations
+					r = 4 + rng.Intn(20) // start with a few registrations
 				}
-				if r >= 37 && r < 75 {
+				if r >= 35 && r < 82 {
 					name = liveName(lst, name)
-				} else if r >= 75 {
+				} else if r >= 82 {
 					name = liveName(nat, name)
 				}
 				switch {
 				case r < 4:
 					out(fmt.Sprintf("key %s %d", hx(pick(rng, sks)), pick(rng, tss)))
-				case r < 18:
-					sk, al := pick(rng, sks), pick(rng, allows)
-					out(fmt.Sprintf("listen %s %s %s", hx(name), hx(sk), visList(al)))
-					if lst[name] == nil {
-						lst[name] = &visGenPx{sk: sk, allow: al}
-						qlen[name] = 0
-						closed[name] = false
-					}
-				case r < 26:
+				case r < 17:
+					listen(name, pick(rng, sks), pick(rng, allows))
+				case r < 24:
 					sk, al := pick(rng, sks), pick(rng, allows)
 					out(fmt.Sprintf("nlisten %s %s %s", hx(name), hx(sk), visList(al)))
 					if nat[name] == nil {
 						nat[name] = &visGenPx{sk: sk, allow: al}
 					}
-				case r < 31:
-					out("close " + hx(name))
-					delete(lst, name)
-				case r < 34:
+				case r < 29:
+					closeL(name)
+				case r < 32:
 					out("nclose " + hx(name))
 					delete(nat, name)
-				case r < 37:
+				case r < 35:
 					out("lclose " + hx(name))
 					if lst[name] != nil {
 						closed[name] = true
 					}
-				case r < 45:
-					if lst[name] != nil && qlen[name] > 0 {
-						out("accept " + hx(name))
-						qlen[name]--
+				case r < 42:
+					accept(name, false)
+				case r < 46:
+					if len(opened) > 0 && rng.Intn(8) > 0 {
+						out(fmt.Sprintf("echo %d", pick(rng, opened)))
+					} else {
+						out(fmt.Sprintf("echo %d", 1+rng.Intn(connID+2)))
 					}
-				case r < 75:
-					ts := pick(rng, tss)
-					user := pick(rng, users)
-					sk := pick(rng, sks)
-					if p := lst[name]; p != nil {
-						sk = p.sk
-						if rng.Intn(3) > 0 && len(p.allow) > 0 {
-							user = pick(rng, p.allow)
-						}
-					}
-					good := rng.Intn(4) > 0
-					sg := sign(sk, ts, good)
-					nm := name
-					if rng.Intn(25) == 0 {
-						nm = string([]byte{0xff, 'p', byte(rng.Intn(256))})
-						user = string([]byte{byte(rng.Intn(256)), 0x80})
-						sg = string([]byte{byte(rng.Intn(256)), byte(rng.Intn(256))})
-					}
-					connID++
-					out(fmt.Sprintf("conn %s %d %s %s %d %s", hx(nm), ts, hx(sg), hx(user), connID, pick(rng, ec)))
-					if p := lst[nm]; p != nil && sg == util.GetAuthKey(p.sk, ts) && visAllowed(p.allow, user) && !closed[nm] {
-						qlen[nm]++
-					}
+				case r < 70:
+					visit("conn", name, false)
+				case r < 82:
+					flightScenario(name)
 				default:
 					ts := pick(rng, tss)
 					user := pick(rng, users)
